@@ -267,7 +267,7 @@ def apply_op(sx, pool, i, kind, preset=None):
             idx = len(T._type_info)
             T.append_field(fname, ftype)
         else:
-            idx = sx.choose('index%d' % i, [0, -1] if sx.tier == 'quick' else ([0, 1, -1, 2, -2] if i < 2 else [0, -1, 1]))
+            idx = sx.choose('index%d' % i, [0, -1] if sx.tier == 'quick' else ([0, 1, -1, -2] if i < 2 else [0, -1, 1]))
             T.insert_field(idx, fname, ftype)
         changed = set()
         chk = []
@@ -312,7 +312,7 @@ def _run_history(sx, kinds, preset=None):
     PENDING.clear()
     PENDING_ALL.clear()
     pool = fresh_pool()
-    probes = {'int': sx.int('probe', -5, 200), 'str': sx.text('probe_s', sx.choose('probe_len', [3] if sx.tier == 'quick' else [0, 3, 9]), alphabet='ab')}
+    probes = {'int': sx.int('probe', -5, 200), 'str': sx.text('probe_s', sx.choose('probe_len', [3] if sx.tier == 'quick' else [0, 3]), alphabet='ab')}
     PROBES.clear()
     PROBES.update(probes)
     snaps = {n: snap(sx, m, probes) for n, m in pool.items()}
